@@ -471,7 +471,7 @@ def run_op(st, op):
         return f"remove({n.name})"
     if k == 11:
         try:
-            st.model = m.clone()
+            st.model = m.clone(deep_copy=True) if b % 3 == 0 else m.clone()
         except Exception:
             return "noop"  # the cloner rejects unsorted graphs / outputs without definition (documented assumption)
         st.affected = st.affected or st.annotated
